@@ -1,4 +1,3 @@
 SPECIFICATION Spec
-INVARIANTS ExitReportsError WarningOnlyXz StdoutIsDecoded FileOnlyIfValid
-CONSTRAINT Emit
+INVARIANTS ExitReportsError WarningOnlyXz StdoutIsDecoded FileOnlyIfValid SourceIndependent BoundaryIndependent StreamPositionIndependent
 CHECK_DEADLOCK FALSE
